@@ -21,6 +21,8 @@ func extraGen(kind string, seed int64, prop string, idx int) (*Case, bool) {
 	case "diff:c16block":
 		r := caseRand(seed, kind, idx)
 		return &Case{Kind: kind, H: genDecoBlock(r), X: map[string]interface{}{"tseed": r.Int63n(1 << 40)}}, true
+	case "hist:bigshape":
+		return &Case{Kind: kind, H: genBigShape(caseRand(seed, kind, idx))}, true
 	case "hist:decoblock":
 		return &Case{Kind: kind, H: genDecoBlock(caseRand(seed, kind, idx))}, true
 	case "garbage":
@@ -130,7 +132,7 @@ func extraJobs(prop, tier string) []JobSpec {
 	case "C05":
 		// hist:faults: a failure (in particular an unrecovered panic) must not leave anything behind that makes
 		// a later Invoke of an acyclic graph report a cycle
-		jobs := []JobSpec{{"graphexh", 5}, {"graphexh5", 128}, {"graphsamp", n(100, 2000)}, {"hist:cyclic", n(40000, 2000000)}, {"hist:faults", n(10000, 500000)}, {"pool:pcyclic", n(15000, 700000)}, {"hist:reentrant", n(15000, 700000)}}
+		jobs := []JobSpec{{"graphexh", 5}, {"graphexh5", 128}, {"graphsamp", n(100, 2000)}, {"hist:cyclic", n(40000, 2000000)}, {"hist:faults", n(10000, 500000)}, {"pool:pcyclic", n(15000, 700000)}, {"hist:reentrant", n(15000, 700000)}, {"hist:bigshape", n(48, 1600)}}
 		if q {
 			jobs = append(jobs, JobSpec{"smallsamp", 60000})
 		} else {
